@@ -20,22 +20,32 @@ import (
 	gwflow "github.com/kubewharf/kubegateway/pkg/flowcontrols/flowcontrol"
 )
 
+type c06Schema struct {
+	Name string `json:"name"`
+	Typ  string `json:"typ"` // "tb" | "mi" | "ex"
+	Q    int32  `json:"q"`
+	B    int32  `json:"b"`
+	Max  int32  `json:"max"`
+}
+
 type c06Op struct {
-	Op string `json:"op"` // "try" | "resize"
-	T  int64  `json:"t"`  // absolute Unix ns of the clock reading of this call
-	Q  int32  `json:"q"`
-	B  int32  `json:"b"`
+	Op   string      `json:"op"` // "try" | "resize" | "sync"
+	Spec []c06Schema `json:"spec"`
+	T    int64       `json:"t"` // absolute Unix ns of the clock reading of this call
+	Q    int32       `json:"q"`
+	B    int32       `json:"b"`
 }
 
 type c06Case struct {
-	Kind  string   `json:"kind"` // "trace" | "rt" | "rtconc" | "disp"
-	Q     int32    `json:"q"`
-	B     int32    `json:"b"`
-	Ops   []c06Op  `json:"ops"`
-	Calls int      `json:"calls"`
-	Evs   []concEv `json:"evs"`
-	G     int      `json:"g"`
-	DurMs int      `json:"dur_ms"`
+	Kind  string      `json:"kind"` // "trace" | "rt" | "rtconc" | "disp" | "ulim" | "conc"
+	Spec  []c06Schema `json:"spec"`
+	Q     int32       `json:"q"`
+	B     int32       `json:"b"`
+	Ops   []c06Op     `json:"ops"`
+	Calls int         `json:"calls"`
+	Evs   []concEv    `json:"evs"`
+	G     int         `json:"g"`
+	DurMs int         `json:"dur_ms"`
 }
 
 var vnow int64 // virtual clock, Unix ns
@@ -80,6 +90,8 @@ func runC06(raw json.RawMessage) interface{} {
 		return map[string]interface{}{"res": res}
 	case "disp":
 		return runDisp(c)
+	case "ulim":
+		return runUlim(c)
 	case "conc":
 		return runConc(c)
 	case "rt":
